@@ -23,6 +23,7 @@ import (
 
 type cliReplayer struct {
 	dir, bin, ref string
+	stdoutPath    string // when set, the child's stdout is this file (e.g. /dev/full)
 }
 
 func newCLIReplayer() (*cliReplayer, error) {
@@ -38,13 +39,21 @@ func newCLIReplayer() (*cliReplayer, error) {
 		cr.close()
 		return nil, fmt.Errorf("go build ./cmd/gtree: %v\n%s", err, out)
 	}
-	refSrc := filepath.Join(verifDir, "replay", "cliref")
-	// go.sum of the reference module is the repository's
+	// the reference program is built in a scratch module that replaces the repository with the tree under test
+	refDir := filepath.Join(dir, "cliref-src")
+	os.MkdirAll(refDir, 0o755)
+	src, err := os.ReadFile(filepath.Join(verifDir, "replay", "cliref", "main.go"))
+	if err != nil {
+		cr.close()
+		return nil, err
+	}
+	os.WriteFile(filepath.Join(refDir, "main.go"), src, 0o644)
+	os.WriteFile(filepath.Join(refDir, "go.mod"), []byte("module cliref\n\ngo 1.24\n\nrequire github.com/ddddddO/gtree v0.0.0\n\nreplace github.com/ddddddO/gtree => "+repoDir+"\n"), 0o644)
 	if b, err := os.ReadFile(filepath.Join(repoDir, "go.sum")); err == nil {
-		os.WriteFile(filepath.Join(refSrc, "go.sum"), b, 0o644)
+		os.WriteFile(filepath.Join(refDir, "go.sum"), b, 0o644)
 	}
 	cmd = exec.Command("go", "build", "-o", cr.ref, ".")
-	cmd.Dir = refSrc
+	cmd.Dir = refDir
 	cmd.Env = goEnv()
 	if out, err := cmd.CombinedOutput(); err != nil {
 		cr.close()
@@ -250,11 +259,11 @@ func (cr *cliReplayer) runConcrete(j *Job, m *ConcreteModel, aid string) *Native
 	}
 	scj, _ := json.Marshal(sc)
 	codeA, outA, errA := cr.exec(cr.bin, dA, doc, args...)
-	codeB, outB, _ := cr.exec(cr.ref, dB, doc, string(scj))
+	codeB, outB, errB := cr.exec(cr.ref, dB, doc, string(scj))
 	res.Asserts["cli-vs-library"]++
 	res.Notes = append(res.Notes, fmt.Sprintf("gtree %s -> exit %d; library -> exit %d", strings.Join(args, " "), codeA, codeB))
 	if codeA < 0 || codeB < 0 || codeB >= 97 {
-		return &NativeResult{Err: fmt.Sprintf("replay run failed: cli=%d ref=%d %s", codeA, codeB, errA)}
+		return &NativeResult{Err: fmt.Sprintf("replay run failed: cli=%d ref=%d cli-stderr=%q ref-stderr=%q", codeA, codeB, clip(errA), clip(errB))}
 	}
 	if (codeA == 0) != (codeB == 0) {
 		return fail(fmt.Sprintf("exit status: gtree %s exited %d, the library call returned %s", strings.Join(args, " "), codeA, map[bool]string{true: "nil", false: "an error"}[codeB == 0]))
@@ -264,6 +273,25 @@ func (cr *cliReplayer) runConcrete(j *Job, m *ConcreteModel, aid string) *Native
 	}
 	if a, b := snapshotDir(dA), snapshotDir(dB); a != b {
 		return fail(fmt.Sprintf("file system differs for gtree %s: cli {%s}, library {%s}", strings.Join(args, " "), a, b))
+	}
+	// the same flags on a well-formed document with an unwritable stdout: the exit status must still be the
+	// library's verdict (the library reports the write error)
+	if sc.Cmd == "output" || sc.DryRun {
+		dC, dD := filepath.Join(work, "cli-full"), filepath.Join(work, "ref-full")
+		keepDoc := doc
+		doc = cliDoc
+		e1, e2 := setup(dC), setup(dD)
+		doc = keepDoc
+		if e1 == nil && e2 == nil && !openFails {
+			cr.stdoutPath = "/dev/full"
+			codeA, _, _ = cr.exec(cr.bin, dC, cliDoc, args...)
+			codeB, _, _ = cr.exec(cr.ref, dD, cliDoc, string(scj))
+			cr.stdoutPath = ""
+			res.Asserts["cli-vs-library-devfull"]++
+			if codeA >= 0 && codeB >= 0 && codeB < 97 && (codeA == 0) != (codeB == 0) {
+				return fail(fmt.Sprintf("exit status with stdout=/dev/full: gtree %s exited %d, the library call returned %s", strings.Join(args, " "), codeA, map[bool]string{true: "nil", false: "an error"}[codeB == 0]))
+			}
+		}
 	}
 	return res
 }
@@ -302,6 +330,12 @@ func (cr *cliReplayer) exec(bin, dir, stdin string, args ...string) (int, string
 	cmd.Stdin = strings.NewReader(stdin)
 	var out, errb bytes.Buffer
 	cmd.Stdout = &out
+	if cr.stdoutPath != "" {
+		if f, err := os.OpenFile(cr.stdoutPath, os.O_WRONLY, 0); err == nil {
+			defer f.Close()
+			cmd.Stdout = f
+		}
+	}
 	cmd.Stderr = &errb
 	err := cmd.Run()
 	if err == nil {
